@@ -301,6 +301,8 @@ Definition m_spawn (m : mon) (i : nat) (kd : kind) (r : res) (a : marb) : marb :
          (if live && is_self kd then m_selfs a ++ [i] else m_selfs a).
 Definition m_stop (r : res) (a : marb) : marb :=
   mkMarb (m_sent a) (m_cut a || is_true r) (m_gone a || is_false r) true (m_cov a) true (m_selfs a).
+Definition m_cutnow (a : marb) : marb :=
+  mkMarb (m_sent a) true (m_gone a) (m_lstop a) (m_cov a) (m_must a) (m_selfs a).
 Definition m_joined (a : marb) : marb :=
   mkMarb (m_sent a) true true (m_lstop a) (m_cov a) (m_must a) (m_selfs a).
 
@@ -349,8 +351,10 @@ Definition mstep (m : mon) (i : nat) (o : op) (r : res) : mon :=
   | ODrop k => set_ok m (is_unit r)
   | OAwait k i' =>
       match r with
-      | RStarted => mkMon (m_arbs m) (m_src m) (m_direct m) (m_cands m) (m_ret m) (m_hangs m)
-                          (m_waited m ++ [(k, i')]) (m_ok m)
+      | RStarted =>
+          (* a self-stopping task that has been seen started has called stop(): a cut like a direct stop *)
+          mkMon (upd k (fun a => if existsb (Nat.eqb i') (m_selfs a) then m_cutnow a else a) (m_arbs m))
+                (m_src m) (m_direct m) (m_cands m) (m_ret m) (m_hangs m) (m_waited m ++ [(k, i')]) (m_ok m)
       | RHang => set_ok m (match nth_error (m_arbs m) k with
                            | Some a => negb (existsb (Nat.eqb i') (m_sent a) && negb (may_stop m a))
                            | None => true end)
